@@ -445,7 +445,30 @@ func c18Survive(c *Ctx, sites []panicSite) {
 	if run := c.P.Func("cmd/airgapped", "prompt", "run"); run != nil {
 		ok, n := true, 0
 		detail := ""
-		fns := append([]*ssa.Function{run}, run.AnonFuncs...)
+		// run itself, its closures, and whatever it calls inside the command package (the command execution may be a
+		// closure or a method of the prompt)
+		fns := []*ssa.Function{}
+		seenF := map[*ssa.Function]bool{}
+		var walk func(f *ssa.Function)
+		walk = func(f *ssa.Function) {
+			if f == nil || seenF[f] || len(f.Blocks) == 0 {
+				return
+			}
+			if f.Pkg != run.Pkg && (f.Parent() == nil || f.Parent().Pkg != run.Pkg) {
+				return
+			}
+			seenF[f] = true
+			fns = append(fns, f)
+			for _, an := range f.AnonFuncs {
+				walk(an)
+			}
+			if n := c.P.CallGraph().Nodes[f]; n != nil {
+				for _, e := range n.Out {
+					walk(e.Callee.Func)
+				}
+			}
+		}
+		walk(run)
 		for _, f := range fns {
 			for _, call := range ssax.Calls(f, false, func(ci ssa.CallInstruction) bool {
 				return !ci.Common().IsInvoke() && ci.Common().StaticCallee() == nil && strings.HasSuffix(npath(ci.Common().Value), ".commandHandler")
